@@ -219,13 +219,13 @@ theorem npm_tablerowAfter (cols i l : Nat) : NPM (tablerowAfter cols i l) := by
 
 variable {P : Prims} {O : OutPrims}
 
-theorem npm_evalCond (h : PrimsNoPanic P O) (t : CondT) : NPM (evalCond P t) := by
+theorem npm_evalCond (h : PrimsNoPanic P O) (path : Bytes) (t : CondT) : NPM (evalCond P path t) := by
   unfold evalCond
   refine npm_bind npm_getEnv (fun env => ?_)
   cases t with
   | always => exact npm_pure _
-  | expr e => exact npm_bind (npm_ofRes _ (evaluate_noPanic P O h env e)) (fun _ => npm_pure _)
-  | notExpr e => exact npm_bind (npm_ofRes _ (evaluate_noPanic P O h env e)) (fun _ => npm_pure _)
+  | expr line e => exact npm_wrapFailAt _ _ (npm_bind (npm_ofRes _ (evaluate_noPanic P O h env e)) (fun _ => npm_pure _))
+  | notExpr line e => exact npm_wrapFailAt _ _ (npm_bind (npm_ofRes _ (evaluate_noPanic P O h env e)) (fun _ => npm_pure _))
 
 theorem npm_intModifier (h : PrimsNoPanic P O) (e : Option Expr) (loc : Loc) : NPM (intModifier P e loc) := by
   unfold intModifier
@@ -431,17 +431,17 @@ theorem np_renderBranches (c : RCtx) (h : PrimsNoPanic c.P c.O) (hc : IncNoPanic
   | [] => by unfold renderBranches; exact npm_pure _
   | (t, body) :: rest => by
     unfold renderBranches
-    refine npm_bind (npm_evalCond h _) (fun b => ?_)
+    refine npm_bind (npm_evalCond h _ _) (fun b => ?_)
     split
     · exact np_renderBlockBody c h hc body
     · exact np_renderBranches c h hc rest
 theorem np_renderCases (c : RCtx) (h : PrimsNoPanic c.P c.O) (hc : IncNoPanic c) (sel : GoVal) :
-    ∀ cs : List (Option (List Expr) × List Node), NPM (renderCases c sel cs)
+    ∀ cs : List (Option (Nat × List Expr) × List Node), NPM (renderCases c sel cs)
   | [] => by unfold renderCases; exact npm_pure _
   | (none, body) :: _ => by unfold renderCases; exact np_renderBlockBody c h hc body
-  | (some es, body) :: rest => by
+  | (some (line, es), body) :: rest => by
     unfold renderCases
-    refine npm_bind (np_whenMatches c h sel es) (fun hit => ?_)
+    refine npm_bind (npm_wrapFailAt _ _ (np_whenMatches c h sel es)) (fun hit => ?_)
     split
     · exact np_renderBlockBody c h hc body
     · exact np_renderCases c h hc sel rest
